@@ -55,10 +55,24 @@ def esc_triple(t):
 class Speller:
     def __init__(self, rng, opts=None):
         self.rng = rng
-        o = dict(varied=True, comments=False, props=None, ref_form=None, wild_kw=False)
+        o = dict(varied=True, comments=False, props=None, ref_form=None, wild_kw=False, fault=None)
         o.update(opts or {})
         self.o = o
         self.varied = o['varied']
+        self.fault = o['fault']          # (kind, k): inject a grammar fault at the k-th opportunity
+        self.fault_seen = {}
+        self.fault_done = False
+
+    def hit(self, kind):
+        """is this the opportunity at which the requested fault is to be injected?"""
+        if self.fault is None or self.fault[0] != kind or self.fault_done:
+            return False
+        n = self.fault_seen.get(kind, 0)
+        self.fault_seen[kind] = n + 1
+        if n == self.fault[1]:
+            self.fault_done = True
+            return True
+        return False
 
     # ---- atoms ----------------------------------------------------------------------------------
     def coin(self, p=0.5):
@@ -193,6 +207,8 @@ class Speller:
                 parts.append(self.ident(e['schema']) + '.' + self.ident(e['name']))
         else:
             parts.append(self.type_text(typ))
+        if self.hit('col_no_type'):
+            parts = parts[:1]
         legacy = []
         st = []
         if c['pk']:
@@ -215,6 +231,8 @@ class Speller:
             st.append(self.kw('default:') + self.sp() + self.default(c['default']))
         if c['note']:
             st.append(self.kw('note:') + self.sp() + self.string(c['note']))
+        if self.hit('unknown_setting'):
+            st.append(self.rng.choice(['bogus', 'auto_increment', 'nullable', 'primary', 'default 5', 'note \'x\'']))
         refs = []
         for r in inline_refs:
             t2 = spec['tables'][r['t2']]
@@ -253,8 +271,11 @@ class Speller:
             st.append(self.kw('unique'))
         if ix['pk']:
             st.append(self.kw('pk'))
-        if ix['type']:
-            st.append(self.kw('type:') + self.sp() + self.kw(ix['type']))
+        if ix['type'] or self.hit('unknown_index_type'):
+            bad = self.fault_done and self.fault and self.fault[0] == 'unknown_index_type' and not getattr(self, '_uit', False)
+            if bad:
+                self._uit = True
+            st.append(self.kw('type:') + self.sp() + (self.rng.choice(['xtree', 'b-tree', 'fulltext']) if bad else self.kw(ix['type'])))
         if ix['note']:
             st.append(self.kw('note:') + self.sp() + self.string(ix['note']))
         if st:
@@ -282,8 +303,11 @@ class Speller:
             head += ' ' + self.kw('as') + ' ' + self.ident(t['alias'])
         hs = []
         note_in_settings = bool(t['note']) and self.coin(0.4)
-        if t['header_color']:
-            hs.append(self.kw('headercolor:') + self.sp() + t['header_color'])
+        if t['header_color'] or self.hit('bad_colour'):
+            bad = self.fault_done and self.fault and self.fault[0] == 'bad_colour' and not getattr(self, '_bc', False)
+            if bad:
+                self._bc = True
+            hs.append(self.kw('headercolor:') + self.sp() + (self.rng.choice(['#ggg', '#ff', '# fff', 'fff', '#12', 'red']) if bad else t['header_color']))
         if note_in_settings:
             hs.append(self.kw('note:') + self.sp() + self.string(t['note']))
         if hs:
@@ -337,12 +361,18 @@ class Speller:
             else:
                 f = '(' + self.sp() + (self.sp() + ',' + self.sp()).join(names) + self.sp() + ')'
             return self.table_addr(spec, ti) + '.' + f
-        body = side(r['t1'], r['col1']) + self.sp(True) + r['type'] + self.sp(True) + side(r['t2'], r['col2'])
+        rel = r['type']
+        if self.hit('bad_operator'):
+            rel = self.rng.choice(['>>', '=', '->', '<=', '><', '~'])
+        body = side(r['t1'], r['col1']) + self.sp(True) + rel + self.sp(True) + side(r['t2'], r['col2'])
         st = []
         if r['on_update']:
             st.append(self.kw('update:') + self.sp() + self.kw(r['on_update']))
-        if r['on_delete']:
-            st.append(self.kw('delete:') + self.sp() + self.kw(r['on_delete']))
+        if r['on_delete'] or self.hit('bad_action'):
+            bad = self.fault_done and self.fault and self.fault[0] == 'bad_action' and not getattr(self, '_ba', False)
+            if bad:
+                self._ba = True
+            st.append(self.kw('delete:') + self.sp() + (self.rng.choice(['explode', 'set', 'no', 'nullify']) if bad else self.kw(r['on_delete'])))
         if st:
             body += self.sp(True) + self.settings(st)
         name = (' ' + self.ident(r['name'])) if r['name'] else ''
@@ -580,4 +610,4 @@ def spell(spec, rng, opts=None):
         r = copy.deepcopy(spec['refs'][j])
         r['inline'] = forms[j] == 'inline'
         exp['refs'].append(r)
-    return text, exp, {'forms': forms}
+    return text, exp, {'forms': forms, 'chunks': chunks, 'fault_done': sp.fault_done}
